@@ -56,7 +56,8 @@ def c14a_census(ctx, tu, seen):
                 continue
             if fe == NS + "call_matcher::val":
                 continue   # the stored expected values: user values (a smart pointer in there is the user's)
-            known = fe in OWNING or fe in LITERAL or fe in SCOPE or fe in USER or fe in NODE or fe in CONTAINMENT or fe in PEER
+            known = fe in OWNING or fe in LITERAL or fe in SCOPE or fe in USER or fe in NODE or fe in CONTAINMENT or fe in PEER \
+                or fe in lib.peer_roles(tu).values() or lib.holder_field(tu, fe) is not None
             # matcher classes store operands by value; a pointer-typed operand is the user's value
             if not known and (fe.startswith(NS + "predicate_matcher::") or fe.startswith(NS + "impl::") or
                               fe.startswith(NS + "lambdas::") or fe.startswith(NS + "ptr_deref::") or
@@ -87,7 +88,8 @@ def c14a_rules(ctx, tu):
                detail="" if ok else "each sequence handle must refer to the handler object it is a sub-object of")
     # peer: monitor -> slot in the watched object; guarded by `died` (C13.c establishes the guard)
     for fn in tu.find(A["dtor_lifetime_monitor"]):
-        uses = cfg.find_events(fn, lambda e: e["e"] in ("assign", "member") and "lifetime_monitor::object_monitor" in str(e))
+        back = lib.peer_roles(tu).get("back", NS + "lifetime_monitor::object_monitor")
+        uses = cfg.find_events(fn, lambda e: e["e"] in ("assign", "member") and back in erase(str(e)))
         g = [bid for bid in fn.blocks if cfg.cond_of(fn, bid) is not None and "lifetime_monitor::died" in str(cfg.cond_of(fn, bid))]
         ok = len(g) == 1 and bool(uses)
         if ok:
@@ -115,7 +117,7 @@ def c14a_rules(ctx, tu):
         if not fn.has_body or erase(fn.rec.get("clsq", "")) != NS + "sequence_matcher" or fn.kind in ("ctor", "dtor"):
             continue
         for b, e in fn.events():
-            if e["e"] == "member" and erase(e["field"]) == NS + "sequence_matcher::seq":
+            if e["e"] == "member" and erase(e["field"]) == lib.peer_roles(tu).get("seq_ref", NS + "sequence_matcher::seq"):
                 n_uses += 1
                 guards = [bid for bid in fn.blocks if cfg.cond_of(fn, bid) is not None and
                           ("is_linked" in str(cfg.cond_of(fn, bid)) or "alive" in str(cfg.cond_of(fn, bid)))]
@@ -137,7 +139,7 @@ def c14a_rules(ctx, tu):
         if not fn.has_body or not fn.is_lib:
             continue
         for b, e in fn.events():
-            if e["e"] == "assign" and "tracer::previous" in str(e.get("lhs")):
+            if e["e"] == "assign" and lib.peer_roles(tu).get("prev_tracer", NS + "tracer::previous") in erase(str(e.get("lhs"))):
                 writers.append(fn)
     dt = tu.find(NS + "tracer::~tracer")
     if dt:
